@@ -19,6 +19,7 @@ from lab.x_cachelab import path_of, rand_case, render_list, body_rid, RidBook, l
 
 KNOWN = ["Accept-Encoding", "Accept-Language", "Accept", "User-Agent", "Cookie", "Origin"]
 EXT = ["X-V1", "X-V2", "X-V3"]
+SINGLETON = {"user-agent", "cookie", "origin"}     # not list-valued: repeating the field line is invalid (RFC 9110 5.3)
 
 
 def value_pool(r, names, me):
@@ -69,6 +70,8 @@ def gen_case(seed, n):
         k = r.choice([2, 2, 3])
         if r.random() < 0.25 and any(cl == "collide" for cl, _ in p):
             pools[h] = [x for x in p if x[0] == "collide"]
+        elif r.random() < 0.15:
+            pools[h] = [p[0], p[1], r.choice(p[2:])]      # absent vs empty vs something
         else:
             pools[h] = r.sample(p, k)
     nreq = r.randrange(6, 11)
@@ -189,6 +192,9 @@ def run(a, res):
                 now, then = norm(low_now.get(nme)), norm(low_then.get(nme))
                 if now == then:
                     continue
+                if nme in SINGLETON and (len(low_now.get(nme) or []) > 1 or len(low_then.get(nme) or []) > 1):
+                    grey.append(nme)          # several field lines of a singleton field: not a valid request, not judged
+                    continue
                 if now is not None and then is not None and tuple(x.lower() for x in now) == tuple(x.lower() for x in then):
                     grey.append(nme)
                 else:
@@ -201,7 +207,7 @@ def run(a, res):
                               f"request {k} ({how}) got the body minted for request {j}; stored response Vary={src['vary']}; differing nominated fields "
                               f"(name, value then, value now)={bad!r}; value classes now={kinds}", wit)
             elif grey:
-                res.grey("case-only-difference")
+                res.grey("case-only-difference-or-repeated-singleton-field")
             else:
                 res.count("matching_vary_hits")
             res.feature(len(c["names"]), c["star"], c["mode"], classes, how, bool(bad), bool(grey))
